@@ -1,10 +1,16 @@
 """C06 — node ids are never handed out twice."""
-from . import gwfam
+from . import gwfam, stopwin
 
 THEOREMS = ["MySensors.C06.alloc_known", "MySensors.C06.alloc_fresh", "MySensors.C06.alloc_reply",
             "MySensors.C06.no_alloc_no_node", "MySensors.C06.allocs_spec", "MySensors.C06.ids_never_twice",
             "MySensors.C06.ids_never_twice_no_persistence", "MySensors.C06.logic_idRequest"]
 ASSUMPTIONS = [
+    "stop() is the model's atomic `stop` step for lines handled before it; the shutdown window itself (lines the "
+    "pump handles while stop() runs) is Model/StopOrder.lean: stop()'s own actions are disconnect then final "
+    "save, a reply goes out only while connected; tied to the code by recording that order inside the real "
+    "stop() of both flavours and by handling real id requests before stop, at the disconnect, at the final save "
+    "and after stop (harness/stopwin.py); every generated history also has its last line before a stop handled "
+    "at the moment of the disconnect",
     "persistence abstracted as in C14 (file = persisted projection of the last successful save)",
     "Model/Gateway.lean mirrors the id allocator and handlers (sampled by the correspondence)",
 ]
@@ -37,6 +43,7 @@ def relevant(hist, obs):
 
 def run(tier, seed, driver):
     res = gwfam.run_family("C06", tier, seed, driver, CFG, relevant)
+    stopwin.part(res, "C06", driver, tier)
     res.rule = ("histories biased to id requests, node presentations of ids 0..255 (incl. 250..255 to reach the "
                 "allocator bound), save ticks, stop/restart cycles, both formats; non-trivial = at least one id "
                 "response emitted; distinct by op script")
@@ -44,4 +51,6 @@ def run(tier, seed, driver):
 
 
 def replay(payload):
+    if payload.get("replay", {}).get("op") == "stop-window":
+        return stopwin.replay(payload["replay"])
     return gwfam.replay_family("C06", payload)
